@@ -119,7 +119,7 @@ var zooTypes = []interface{}{
 	zoo.Scalars{}, zoo.Small{}, zoo.Slices{}, zoo.Conts{}, zoo.Derived{}, zoo.CustomHolder{}, zoo.Custom{},
 	zoo.NamedMapHolder{}, zoo.Node{}, zoo.FNode{}, zoo.Ping{}, zoo.Pong{}, zoo.Wide{}, zoo.Five{},
 	zoo.HI{}, zoo.HI8{}, zoo.HI16{}, zoo.HI32{}, zoo.HI64{}, zoo.HU{}, zoo.HU8{}, zoo.HU16{}, zoo.HU32{}, zoo.HU64{},
-	zoo.HF32{}, zoo.HF64{}, zoo.HStr{}, zoo.HBin{}, zoo.HTime{}, zoo.HBool{}, zoo.HPTime{}, zoo.Named{}, zoo.Outer{}, zoo.Interior{}, zoo.Uni{},
+	zoo.HF32{}, zoo.HF64{}, zoo.HStr{}, zoo.HBin{}, zoo.HTime{}, zoo.HBool{}, zoo.HPTime{}, zoo.Named{}, zoo.Outer{}, zoo.Interior{}, zoo.Uni{}, zoo.HoldIList{},
 }
 
 var topTypes = []interface{}{
@@ -689,6 +689,13 @@ func famC04(e *emitter, g *gen.G, thorough bool) {
 			ns2[1].M = ns2[0].M // the same map in both
 		}
 		e.emit(fmt.Sprintf("maps/%d", idx), ns2[0])
+	}
+	// a declared list type with interface elements: objects in it are pointers, shared ones stay shared
+	{
+		p1, p2 := &zoo.Small{Name: "p1"}, &zoo.Small{Name: "p2"}
+		e.emit("ilist/top", zoo.IList{p1, p1, p2, int32(3), "s"})
+		e.emit("ilist/field", &zoo.HoldIList{L: zoo.IList{p1, p2, p1}, P: p1})
+		e.emit("ilist/nested", []interface{}{zoo.IList{p1}, p1, zoo.IList{p1, zoo.IList{p2}}})
 	}
 	// the ROOT is a list that one of its elements holds (below and beyond the decoder's preallocation of 1024)
 	for _, n := range []int{3, 1024, 1025, 1100} {
